@@ -252,7 +252,7 @@ fn make_entry(name: &str, bytes: Vec<u8>, home: &[u32], weight: u32, kind: &'sta
     })
 }
 
-const NC_FONTS: u64 = 24;
+const NC_FONTS: u64 = 36;
 
 /// feature selections over a font's own feature tags: everything as a custom list, everything
 /// as a mask, and two halves as custom lists
@@ -594,6 +594,43 @@ fn synth_text(alphabet: &[char], r: u32) -> String {
     (0..len).map(|_| letters[rng.below(letters.len())]).collect()
 }
 
+/// History ops of the probe's kind, one time in four: same script / language / tuple as the probe
+/// and a feature selection that differs from the probe's in exactly one mask bit (or one Custom
+/// entry) — selections whose lookup lists are related (frac and its complement, rvrn, ...) are
+/// where a cache derived from another cache entry would show.
+fn neighbour_features(e: &FontEntry, s: &OpSpec, probe: &OpSpec, mut a: ShapeArgs) -> ShapeArgs {
+    if s.kind != K_SAME || s.r[6] % 4 != 0 || !matches!(probe.kind, K_SAME | K_SHAPE | K_POS | K_MAP) {
+        return a;
+    }
+    let p = resolve_shape(e, probe);
+    const BITS: [FeatureMask; 8] = [
+        FeatureMask::FRAC,
+        FeatureMask::FRAC,
+        FeatureMask::FRAC,
+        FeatureMask::AFRC,
+        FeatureMask::RVRN,
+        FeatureMask::CALT,
+        FeatureMask::LIGA,
+        FeatureMask::SMCP,
+    ];
+    a.feat = match &p.feat {
+        FeatSel::Mask(m) => FeatSel::Mask(*m ^ BITS[pick(BITS.len(), (s.r[6] / 4).wrapping_mul(2654435761))].bits()),
+        FeatSel::Custom(l) => {
+            let mut l = l.clone();
+            if l.is_empty() || s.r[6] & 4 == 0 {
+                l.push((u32::from_be_bytes(*b"frac"), None));
+            } else {
+                l.pop();
+            }
+            FeatSel::Custom(l)
+        }
+    };
+    a.script = p.script;
+    a.lang = p.lang;
+    a.tuple = p.tuple;
+    a
+}
+
 fn resolve(e: &FontEntry, s: &OpSpec, probe: &OpSpec) -> Op {
     let probe_kind = if probe.kind == K_SAME { K_SHAPE } else { probe.kind };
     let kind = if s.kind == K_SAME { probe_kind } else { s.kind };
@@ -614,8 +651,8 @@ fn resolve(e: &FontEntry, s: &OpSpec, probe: &OpSpec) -> Op {
             let a = resolve_shape(e, s);
             Op::MapGlyphs { text: a.text, script: a.script, required: s.flags & 0b1_0000 != 0 }
         }
-        K_SHAPE => Op::Shape(resolve_shape(e, s)),
-        K_POS => Op::Positions { args: resolve_shape(e, s), rtl: s.r[5] & 1 == 1, vertical: s.r[5] & 6 == 6 },
+        K_SHAPE => Op::Shape(neighbour_features(e, s, probe, resolve_shape(e, s))),
+        K_POS => Op::Positions { args: neighbour_features(e, s, probe, resolve_shape(e, s)), rtl: s.r[5] & 1 == 1, vertical: s.r[5] & 6 == 6 },
         K_LOOKUP => {
             // biased to DOTTED CIRCLE
             let ch = if s.flags & 1 == 1 { '\u{25CC}' } else { CHARS[pick(CHARS.len(), s.r[0])] };
